@@ -5,7 +5,7 @@ import os
 
 from vcore import Infra, log
 
-ALL_FAULTS = ["forged", "otherid", "stale", "badsig", "garbage", "malformed", "neterr",
+ALL_FAULTS = ["forged", "otherid", "stale", "badsig", "garbage", "malformed", "neterr",  # ("otherview" is used by C13's configurations only)
               "tjunk", "tswap", "ttruncate", "textend", "tforged", "cache"]
 
 
@@ -209,6 +209,11 @@ def c13_configs(tier):
     for (p, n, h, m) in ([(2, 11, 2, 3)] if q else [(2, 11, 2, 3), (2, 7, 2, 3), (1, 7, 1, 2), (3, 13, 2, 5), (2, 15, 2, 3)]):
         cfgs.append(dict(clients=["c1"], client_of={"t1": "c1"}, lookups={"t1": [0, 1]}, h=h, prefix=p, size_a=n, size_b=n, served={"A": n, "B": n},
                          serve_tls=("B",), max_switch=0, init_cfgs=[("A", m)], init_disk_full=True))
+    # a record cache written by a process that followed the other view (and one response from the other view): the stored head is on
+    # A, the server serves A, the cached lookup file carries a genuine head of B - also for records inside the common prefix
+    for (p, na, nb) in ([(2, 4, 5)] if q else [(2, 4, 5), (1, 3, 3), (3, 5, 4)]):
+        cfgs.append(dict(clients=["c1"], client_of={"t1": "c1"}, lookups={"t1": [0, p]}, h=2, prefix=p, size_a=na, size_b=nb, served={"A": na, "B": nb},
+                         serve_tls=("A",), max_switch=0, init_cfgs=[("A", na), None], max_faults=1, fault_kinds=("otherview", "cache")))
     if not q:
         # smaller served heads that grow while the fork is presented
         for (p, na, nb) in [(1, 3, 3), (2, 4, 4)]:
